@@ -1,7 +1,8 @@
 import json, sys
 pid, extra = sys.argv[1], (sys.argv[2] if len(sys.argv) > 2 else '')
 p = [json.loads(l) for l in open('/verif/properties.jsonl') if json.loads(l)['id'] == pid][0]
-d = f'/tmp/wt/{pid}'
+import os
+d = os.environ.get('AGENT_WT') or f'/tmp/wt/{pid}'
 print(f"""You are producing a realistic *seeded defect* for the open-source project masashi-y/depccg (an A* CCG parser: C++ header depccg/parsing.h driven by Cython depccg/parsing.pyx and Python depccg/parsing.py; Python modules for categories, unification, grammar rules, tree printers and treebank readers). It will be used to test whether an independent verification effort notices the breakage. You have a private scratch git worktree of the repository at {d}. Work ONLY inside {d}. Do not read, list or touch /verif or /repo.
 
 THE PROPERTY YOUR CHANGE MUST BREAK
